@@ -145,7 +145,11 @@ func (m *Model) PullWasteRecords(ctx context.Context, opts ...resource.ReadOptio
 				ChangeTime: wr.WasteCreateTime,
 				Type:       types.ChangeType_ADD,
 			}
-			send <- change
+			select {
+			case <-ctx.Done():
+				return
+			case send <- change:
+			}
 		}
 	}()
 
